@@ -105,6 +105,8 @@ IntSources == {
   <<"0","x","F","F","F","F","F","F","F","F","F","F","F","F","F","F","F","F">>,
   <<"0","x","1","0","0","0","0","0","0","0","0","0","0","0","0","0","0","0","0">>,
   <<"0","x","0","0","0","0","0","0","0","0","0","0","0","0","0","0","0","0","0","0","0","7">>,
+  \* hexadecimal integers whose digits are the exponent markers of floats (e / E) must stay integers
+  <<"0","x","e">>, <<"0","x","1","e">>, <<"0","X","E","F">>, <<"0","x","f","e","e","d">>, <<"0","x","E","0">>, <<"1","0">>, <<"0","0">>,
   <<"0","x">> }
 IntCases == {[kind |-> "int", src |-> s, neg |-> n, r |-> IntReq(s, n), m |-> IntMech(s, n)] : s \in IntSources, n \in BOOLEAN}
 
@@ -154,6 +156,27 @@ FloatCases == {
   F(<<"0","x","1","p","4">>, Value(HexFloatText(<<"1">>, <<>>, FALSE, 4))),
   F(<<"0","X","f",".","f","p","0">>, Value(HexFloatText(<<"f">>, <<"f">>, FALSE, 0))),
   F(<<"1","E","3">>, Other), F(<<"0","x","1",".","8","P","3">>, Other), F(<<"1","e">>, Error) }
+\* Generated float literals: every class of hexadecimal digit (decimal digit, a-d, the exponent-marker look-alikes e / E,
+\* f) in the integer and in the fraction part, with and without a p exponent (signed, unsigned), 0x and 0X; decimal
+\* literals with / without fraction and exponent.  Values computed exactly by HexFloatText / DecFloatText.
+ExpChars(neg, e, mark) == IF e = 99 THEN <<>> ELSE <<mark>> \o (IF neg THEN <<"-">> ELSE <<>>) \o <<DecDigits[e + 1]>>
+HexIPs == {<<"1">>, <<"e">>, <<"E">>, <<"f","e">>, <<"A">>, <<"0">>, <<"d","9">>}
+HexFPs == {<<>>, <<"8">>, <<"e">>, <<"E">>, <<"4">>, <<"f","8">>, <<"c">>}
+HexExps == {<<FALSE, 99>>, <<FALSE, 0>>, <<FALSE, 3>>, <<TRUE, 1>>, <<TRUE, 4>>}       \* 99 = no exponent written
+\* a fraction is written iff there is a point; a literal without point and without exponent is an integer, not a float
+GenHexFloats ==
+  {F(<<"0", x>> \o ip \o (IF fp # <<>> THEN <<".">> ELSE <<>>) \o fp \o ExpChars(ex[1], ex[2], "p"),
+     Value(HexFloatText(ip, fp, ex[1], IF ex[2] = 99 THEN 0 ELSE ex[2]))) :
+     x \in {"x", "X"}, ip \in HexIPs, fp \in HexFPs, ex \in {e \in HexExps : TRUE}}
+DecIPs == {<<"1">>, <<"1","2">>, <<"0">>}
+DecFPs == {<<>>, <<"5">>, <<"2","5">>, <<"0">>}
+DecExps == {<<FALSE, 99>>, <<FALSE, 0>>, <<FALSE, 3>>, <<TRUE, 2>>, <<FALSE, 1>>}
+GenDecFloats ==
+  {F(ip \o (IF fp # <<>> THEN <<".">> ELSE <<>>) \o fp \o ExpChars(ex[1], ex[2], "e"),
+     Value(DecFloatText(ip, fp, ex[1], IF ex[2] = 99 THEN 0 ELSE ex[2]))) :
+     ip \in DecIPs, fp \in DecFPs, ex \in DecExps}
+IsFloatSrc(src) == \E i \in 1..Len(src) : src[i] = "." \/ src[i] = "p" \/ (src[i] = "e" /\ ~(Len(src) > 1 /\ src[2] \in {"x", "X"}))
+GenFloatCases == {c \in GenHexFloats \cup GenDecFloats : IsFloatSrc(c.src)}
 \* RTIME: only plain decimal literals take a unit; the value is the literal itself
 R(src, text) == [kind |-> "rtime", src |-> src, neg |-> FALSE, r |-> text, m |-> text]
 RTimeCases == {
@@ -259,7 +282,7 @@ StrCase(chunks, long) ==
 ----------------------------------------------------------------------------
 VARIABLES stage, case
 vars == <<stage, case>>
-NumCases == IntCases \cup FloatCases \cup RTimeCases
+NumCases == IntCases \cup FloatCases \cup RTimeCases \cup GenFloatCases
 Init == stage = 0 /\ case = <<>>
 Next == \/ stage = 0 /\ stage' = 1 /\ case' \in ({<<"num">>} \cup {<<"str", c>> : c \in EscChunks} \cup {<<"str0">>})
         \/ stage = 1 /\ stage' = 2 /\ case[1] = "num" /\ case' \in NumCases
